@@ -261,6 +261,8 @@ class D:
             lab = n.get("label")
             if lab is None and n.get("names"):
                 lab = n["names"][0]
+            if lab is None and n.get("dupnames"):
+                lab = n["dupnames"][0]  # a label used twice: docutils moves the name to 'dupnames' (and reports it)
             return [["mathblock", n.astext(), lab]]
         if isinstance(n, nodes.target):
             if n.get("ids") and str(n["ids"][0]).startswith("equation-"):
